@@ -185,6 +185,7 @@ func (instr *InstrActions) Len() (n uint16) {
 }
 
 func (instr *InstrActions) MarshalBinary() (data []byte, err error) {
+	instr.Length = instr.Len()
 	data, err = instr.InstrHeader.MarshalBinary()
 
 	b := make([]byte, 4)
